@@ -133,6 +133,42 @@ def sis : R String := do
       (s', (if rst then ep + 1 else ep), out.push (join blk))) (s0, 0, #[])
   pure (join ("ok" :: outs.toList))
 
+/-- `sisp N lin circ K D u… w0… x0… (freeze valid predx_0…predx_{N-1} |l| l…)×K` — the recursion with the
+    prediction outcome given as data (first state entry of every predicted particle, as the shipped
+    `DrawParticles` over a noisy state model produced it) and the likelihood the shipped model reported.
+    Output blocks as for `sis`. -/
+def sisp : R String := do
+  let n ← nat; let lin ← nat; let circ ← nat; let k ← nat
+  let d ← nat
+  let us ← listOf d flt
+  let w0 ← listOf n flt
+  let x0 ← listOf n flt
+  let evs ← listOf k (do
+    let fr ← bool
+    let va ← bool
+    let px ← listOf n flt
+    let nl ← nat
+    let l ← listOf nl flt
+    let pr : PSet Float Float → PSet Float Float → PSet Float Float :=
+      fun prev pred => { pred with parts := px, logw := prev.logw }
+    let ev : SisEvent Float Float := { cmds := [], freezeOk := fr, likValid := va, lik := l, predict := pr }
+    pure ev)
+  done
+  let cfg : SisCfg Float := { N := n, tiny := Float.ofBits 0x0010000000000000 }
+  let s0 := sisInit cfg lin circ (fun s => { s with parts := x0, logw := w0 }) us
+  let (_, outs) := evs.foldl (fun (acc : SisState Float Float × Array String) ev =>
+      let st := acc.1
+      let lg := (sisLogged cfg st ev).2.logw
+      let s := sisStep cfg st ev
+      let blk := ["S", toString s.cor.n, toString s.cor.lin, toString s.cor.circ,
+                  toString s.cor.parts.length, toString s.cor.logw.length,
+                  toString s.pred.n, toString s.pred.lin, toString s.pred.circ, toString s.pred.parts.length,
+                  (if s.resampled then "1" else "0"), floatStr (neffLog lg), toString s.parents.length]
+                 ++ intsStr s.parents ++ s.cor.logw.map floatStr ++ s.cor.parts.map floatStr
+                 ++ ["L", toString lg.length] ++ lg.map floatStr ++ ["T", toString st.step]
+      (s, acc.2.push (join blk))) (s0, #[])
+  pure (join ("ok" :: outs.toList))
+
 /-- `glik scale ok1 ok2 ok3 ok4 N d_1…d_N` (`d_i` = Gaussian density of innovation `i`) -> valid |l| l… -/
 def glik : R String := do
   let scale ← flt
@@ -151,6 +187,7 @@ def handle (op : String) (args : List String) : Option String :=
   | "rwp" => some ((run rwp args).getD "bad-args")
   | "sis" => some ((run sis args).getD "bad-args")
   | "glik" => some ((run glik args).getD "bad-args")
+  | "sisp" => some ((run sisp args).getD "bad-args")
   | _ => none
 
 end BFL.DriverPF
